@@ -381,6 +381,8 @@ def parse_key_tuples(stderr):
 ID_UNIT = {MODPATH + "/a": "a", MODPATH + "/a [" + MODPATH + "/a.test]": "at", MODPATH + "/a.test": "am",
            MODPATH + "/b": "b", MODPATH + "/c": "c", MODPATH + "/d": "d", MODPATH + "/w": "w"}
 # units whose key may legitimately differ from the model's after `u` was re-analysed under an existing key
+TRANS_DEPS = {"w": set(), "d": set(), "std": set(), "b": {"d"}, "c": {"w"}, "a": {"b", "d", "w"},
+              "at": {"b", "d", "w"}, "am": {"at", "b", "d", "w", "std"}}
 DOWNSTREAM = {"w": {"c", "a", "at", "am"}, "d": {"b", "a", "at", "am"}, "b": {"a", "at", "am"},
               "at": {"am"}, "std": {"am"}, "a": set(), "c": set(), "am": set()}
 
@@ -527,7 +529,7 @@ def replay(sc, base, hist, nstd, keymode=False, model=True):
                     if not r or r["n"] != 1 or r["pkg"] is None:
                         res["drift"].append({"layer": "key", "step": i, "what": "no unique key block for %s" % u})
                         continue
-                    res["key_obs"].append({"step": i, "u": u, "fuzzy": fuzzy,
+                    res["key_obs"].append({"step": i, "u": u, "fuzzy": fuzzy, "depmiss": dep_reanalysed(pred, u),
                                            "m": {c_: canon(ku["k"][c_]) for c_ in ("cfg", "pkg", "go", "vet")},
                                            "r": {"cfg": r["cfg"], "pkg": r["pkg"], "go": r["go"],
                                                  "vet": "|".join(sorted(r["vet"]))}})
@@ -586,17 +588,25 @@ def hook_layer(tr, pred, step, go, nstd, tainted, res):
         u = ku["u"]
         if u in byunit:
             pid, k = byunit[u]
-            res["key_obs_hook"].append({"step": step, "u": u, "fuzzy": u in tainted,
+            res["key_obs_hook"].append({"step": step, "u": u, "fuzzy": u in tainted, "depmiss": dep_reanalysed(pred, u),
                                         "m": {c_: canon(ku["k"][c_]) for c_ in ("cfg", "pkg", "go", "vet")},
                                         "r": {"cfg": k["cfg"], "pkg": k["pkg"], "go": k["go"],
                                               "vet": "|".join(sorted(tr["dep"].get(pid, [])))}})
     return out
 
 
+def dep_reanalysed(pred, u):
+    """Some (transitive) dependency of u was analysed, not served, in this run: its vetx bytes are new."""
+    return any(pred["log"].get(x) in ("miss", "upgrade") for x in TRANS_DEPS[u])
+
+
 def key_partition_drift(obs):
     """For every key component: over all pairs of (run, unit) observations of one history, the real
-    values are equal iff the model values are equal (vet: only 'real equal => model equal' once a
-    dependency has been re-analysed under an existing key)."""
+    values are equal iff the model values are equal.  For `vet` (hashes of the dependencies' vetx
+    FILES) 'model equal, real different' is legitimate when the later run analysed a dependency anew
+    or a dependency was re-analysed under an existing key before: a vetx file is a gob stream in map
+    order, so two analyses of the same inputs may differ in bytes; 'real equal => model equal' always
+    has to hold."""
     out = []
     for comp in ("cfg", "pkg", "go", "vet"):
         for i in range(len(obs)):
@@ -609,7 +619,7 @@ def key_partition_drift(obs):
                     continue
                 if me == re_:
                     continue
-                if comp == "vet" and me and not re_ and (x["fuzzy"] or y["fuzzy"]):
+                if comp == "vet" and me and not re_ and (x["fuzzy"] or y["fuzzy"] or y["depmiss"]):
                     continue
                 out.append({"layer": "key", "component": comp, "model_equal": me, "real_equal": re_,
                             "a": {k: x[k] for k in ("step", "u")}, "b": {k: y[k] for k in ("step", "u")}})
